@@ -230,7 +230,10 @@ func runC15(c *Ctx) {
 					okUse, d = false, core.BuiltinName(cc)
 				default:
 					callee := core.StaticCallee(x)
-					if callee != nil && callee.Name() == "Clone" {
+					if callee != nil && callee.Origin() != nil {
+						callee = callee.Origin()
+					}
+					if callee != nil && callee.Name() == "Clone" && callee.Pkg != nil && (callee.Pkg.Pkg.Path() == "maps" || callee.Pkg.Pkg.Path() == "slices") {
 						okUse, d = true, "maps.Clone"
 					} else if callee != nil && callee.Pkg != nil && (callee.Pkg.Pkg.Path() == "bytes" || callee.Pkg.Pkg.Path() == "strings") {
 						okUse, d = true, "read-only argument of "+callee.Pkg.Pkg.Path()+"."+callee.Name()
